@@ -1,10 +1,12 @@
 ------------------------------- MODULE MCSdl -------------------------------
-(* Shared definitions for the bounded document spaces of Sdl.tla (J1) and their export as ndjson (J2); the spaces themselves are in MCSdlTiny / MCSdlQuick / MCSdlThorough. *)
+(* Shared definitions for the bounded document spaces of Sdl.tla (J1) and their export as ndjson (J2); the spaces
+   themselves are in MCSdlTiny / MCSdlQuick / MCSdlThorough. *)
 EXTENDS Sdl, Json
 
 AllBodies == SUBSET {"command", "args", "env"}
 NoneAll   == {{}, {"command", "args", "env"}}
-AllKinds  == {"none", "http", "httphosts", "udp", "local", "two", "fan", "bare", "barehosts", "bareonly", "udp80", "as8080", "svcglobal", "rev", "mix"}
+AllKinds  == {"none", "http", "httphosts", "udp", "local", "two", "fan", "bare", "barehosts", "bareonly", "udp80", "as8080",
+              "svcglobal", "rev", "mix"}
 
 CpuM(m)   == [form |-> "m", milli |-> m]
 CpuDec(m) == [form |-> "dec", milli |-> m]
@@ -18,34 +20,39 @@ QLarge == Q(CpuM(100), "", B(128, "Mi"), B(1, "Gi"), <<>>)
 QSmall == Q(CpuDec(500), "", Bh(1, "Gi"), B(512, "M"), <<>>)
 QOdd   == Q(CpuDec(1250), "amd64", B(2, "G"), B(100, "Gi"), << <<"class", "ssd">> >>)
 
-\* ---- quantity universes for the units slices: one dimension varies at a time ----
-MemForms == { B(1, "Mi"), B(128, "Mi"), B(1, "Gi"), B(16, "Gi"), Bh(1, "Gi"), Bh(0, "Gi"), B(512, "M"), B(2, "G"),
-              B(2047, "Ki"), B(2097152, ""), B(1500, "k"), Bh(2, "M"), B(16384, "Mi"), B(17, "Gi"), B(1000, "Ki") }
-StorageForms == { B(5, "Mi"), B(1, "Ti"), B(1, "T"), B(100, "Gi"), Bh(512, "Mi"), B(1000, "Mi"), B(10, "G"),
-                  B(5242880, ""), Bh(0, "Ti"), B(4, "Mi"), B(1025, "Gi") }
-BaseQuants(tag) ==
-  CASE tag = "QLarge" -> {QLarge} [] tag = "QSmall" -> {QSmall} [] tag = "QOdd" -> {QOdd} [] tag = "QLargeOdd" -> {QLarge, QOdd}
+\* quantity families (see Sdl!FamAt)
+List(items) == [k |-> "list", items |-> items]
+CpuFam(form, lo, hi) == [k |-> "cpu", form |-> form, lo |-> lo, hi |-> hi]
+MemFam(sfx, lo, hi) == [k |-> "mem", sfx |-> sfx, lo |-> lo, hi |-> hi]
+StorageFam(sfx, lo, hi) == [k |-> "storage", sfx |-> sfx, lo |-> lo, hi |-> hi]
+Mem(m) == [BaseQuantity EXCEPT !.mem = m]
+Sto(x) == [BaseQuantity EXCEPT !.storage = x]
+Cpu(c) == [BaseQuantity EXCEPT !.cpu = c]
 
-\* n.t <decimal suffix> for n in ns, t in 1..9
-DecForms(sfx, ns) == { Bt(n, t, sfx) : n \in ns, t \in 1..9 }
-QuantsVarying(cpus, mems, stors) ==
-  UNION { { Q(c, "", B(128, "Mi"), B(1, "Gi"), <<>>) : c \in cpus },
-          { Q(CpuM(100), "", m, B(1, "Gi"), <<>>) : m \in mems },
-          { Q(CpuM(100), "", B(128, "Mi"), s, <<>>) : s \in stors },
-          { Q(CpuM(250), "amd64", B(128, "Mi"), B(1, "Gi"), << <<"class", "ssd">> >>),
-            Q(CpuM(250), "", B(128, "Mi"), B(1, "Gi"), << <<"class", "ssd">> >>),
-            Q(CpuM(250), "amd64", B(128, "Mi"), B(1, "Gi"), <<>>) } }
+\* hand picked forms, some outside the network limits (the real Read must reject those)
+MemForms == List(<< Mem(B(1, "Mi")), Mem(B(128, "Mi")), Mem(B(1, "Gi")), Mem(B(16, "Gi")), Mem(Bh(1, "Gi")), Mem(Bh(0, "Gi")),
+                    Mem(B(512, "M")), Mem(B(2, "G")), Mem(B(2047, "Ki")), Mem(B(2097152, "")), Mem(B(1500, "k")),
+                    Mem(Bh(2, "M")), Mem(B(16384, "Mi")), Mem(B(17, "Gi")), Mem(B(1000, "Ki")) >>)
+StorageForms == List(<< Sto(B(5, "Mi")), Sto(B(1, "Ti")), Sto(B(1, "T")), Sto(B(100, "Gi")), Sto(Bh(512, "Mi")), Sto(B(1000, "Mi")),
+                        Sto(B(10, "G")), Sto(B(5242880, "")), Sto(Bh(0, "Ti")), Sto(B(4, "Mi")), Sto(B(1025, "Gi")) >>)
+AttrForms == List(<< Q(CpuM(250), "amd64", B(128, "Mi"), B(1, "Gi"), << <<"class", "ssd">> >>),
+                     Q(CpuM(250), "", B(128, "Mi"), B(1, "Gi"), << <<"class", "ssd">> >>),
+                     Q(CpuM(250), "amd64", B(128, "Mi"), B(1, "Gi"), <<>>) >>)
+CpuEdge == List(<< Cpu(CpuM(10)), Cpu(CpuM(100)), Cpu(CpuM(1500)), Cpu(CpuM(10000)), Cpu(CpuM(9)), Cpu(CpuM(10001)),
+                   Cpu(CpuDec3(100)), Cpu(CpuDec3(1001)), Cpu(CpuDec3(2500)) >>)
 
-Sl(svcs, profs, places, body, expk, counts, quants) ==
-  [svcs |-> svcs, profs |-> profs, places |-> places, body |-> body, expk |-> expk, counts |-> counts, quants |-> quants]
+Sl(name, svcs, profs, places, body, expk, counts, quants) ==
+  [name |-> name, svcs |-> svcs, profs |-> profs, places |-> places, body |-> body, expk |-> expk, counts |-> counts,
+   quants |-> quants]
 
-UnitsSlice ==
-  Sl(<<"web">>, <<"large">>, <<"east">>, [s \in {"web"} |-> {{}}], [s \in {"web"} |-> {"http"}], {1},
-     [c \in {"large"} |-> "units"])
+UnitsSlice(name, fams) ==
+  Sl(name, <<"web">>, <<"large">>, <<"east">>, [s \in {"web"} |-> {{}}], [s \in {"web"} |-> {"http"}], {1},
+     [c \in {"large"} |-> fams])
 
-\* J2: the documents TLC enumerated, one JSON object per line, written next to the spec
+\* J2: the documents TLC enumerated, one JSON object per line, one file per slice, written next to the spec
 ExportDocs(slices) ==
-  LET seq == SetToSeq(DocSpaceOf(slices)) IN
-  /\ ndJsonSerialize("docs.ndjson", seq)
-  /\ PrintT(<<"docs", Len(seq), "valid", Cardinality({i \in 1..Len(seq) : Valid(seq[i])})>>)
+  \A i \in 1..Len(slices) :
+    LET seq == SetToSeq(DocsFor(slices[i])) IN
+    /\ ndJsonSerialize("docs_" \o slices[i].name \o ".ndjson", seq)
+    /\ PrintT(<<"slice", slices[i].name, "docs", Len(seq), "valid", Cardinality({j \in 1..Len(seq) : Valid(seq[j])})>>)
 =============================================================================
